@@ -43,6 +43,34 @@ def check(ctx):
     loops = [l for l in walk_no_nested(vi) if isinstance(l, _ast.For) and "zip(reduced_indexes, x.shape)" in unparse(l.iter)]
     ok = len(red) == 1 and len(loops) == 1 and dominates(vi, red[0][0], loops[0])
     ctx.ob("ORD.vindex.reduce-before-bounds", vi, "x = x[nonfancy_indexes] dominates the loop that normalises negative / checks out-of-range points against x.shape", ok, "" if ok else "points are wrapped and range-checked against the un-sliced extent: negative points select the wrong element when the same call also slices that axis' neighbours")
+    take_rules(ctx)
+
+
+def take_rules(ctx):
+    """Rules on take / dask-integer-array indexing shared by C20 (indexing) and C24 (take)."""
+    import ast as _ast
+    from ..lib import calls, unparse, find, walk_no_nested, dominates, eqv, returns
+    from ..cfg import cfg_of
+
+    # the "index is the identity" shortcut of take must demand consecutive values
+    tk = ctx.model.module("dask/array/slicing.py").func("take")
+    fast = [n for n in _ast.walk(tk) if isinstance(n, _ast.If) and "len(index) == full_length" in unparse(n.test)]
+    ok = len(fast) == 1 and eqv(fast[0].test, "len(index) == full_length and index[0] == 0 and np.all(np.diff(index) == 1)")
+    ctx.ob("ALG.take.identity-shortcut", tk, "take returns the blocks unchanged only for index == arange(n): full length, starts at 0, every step == 1", ok, "" if ok else "a sorted index with duplicates (or gaps closed by duplicates) is taken for the identity: x[[0,1,1,3]] returns x")
+    tk2 = ctx.model.module("dask/array/_array_expr/_slicing.py").func("take")
+    ok = bool(find("arange = arange_safe(np.sum(x.chunks[axis]), like=index)", tk2)) and any(isinstance(n, _ast.If) and eqv(n.test, "len(index) == len(arange) and np.abs(index - arange).sum() == 0") for n in _ast.walk(tk2))
+    ctx.ob("ALG.take.identity-shortcut", tk2, "expression engine: no-op only when index equals arange(n) element-wise", ok)
+    # dask integer indexer: negative entries are normalised with the LENGTH OF THE AXIS before they are compared with chunk offsets
+    ag = ctx.model.module("dask/array/chunk.py").func("slice_with_int_dask_array_aggregate")
+    norm = find("idx = np.where(idx < 0, idx + sum(x_chunks), idx)", ag)
+    loops = [l for l in walk_no_nested(ag) if isinstance(l, _ast.For)]
+    ok = len(norm) == 1 and bool(loops) and all(dominates(ag, norm[0][0], l) for l in loops)
+    ctx.ob("ALG.int-index.negative", ag, "slice_with_int_dask_array_aggregate: idx < 0 -> idx + sum(x_chunks), before the per-chunk loop", ok, "" if ok else "negative entries are compared with chunk offsets un-normalised (or normalised with the wrong length): the selected elements come back in the wrong order / wrong values while shape and chunks stay right")
+    pc = ctx.model.module("dask/array/chunk.py").func("slice_with_int_dask_array")
+    norm2 = find("idx = np.where(idx < 0, idx + x_size, idx)", pc)
+    shift = find("idx = idx - offset", pc)
+    ok = len(norm2) == 1 and len(shift) == 1 and dominates(pc, norm2[0][0], shift[0][0])
+    ctx.ob("ALG.int-index.negative", pc, "slice_with_int_dask_array (per chunk): idx < 0 -> idx + x_size (the full axis length), before the chunk offset is subtracted", ok)
 
 
 VARIANTS = [
